@@ -5,6 +5,8 @@ import (
 	"go/ast"
 	"go/token"
 	"go/types"
+
+	"golang.org/x/tools/go/cfg"
 )
 
 // ARITH.promote-first — the n-ary arithmetic reducers (+, -, *) are documented
@@ -312,4 +314,186 @@ func mirrorOp(t token.Token) token.Token {
 		return token.LEQ
 	}
 	return t
+}
+
+// ARITH.div-folds-left — `/` is documented as "divides the first by all subsequent; int
+// while every division is exact, otherwise float": (/ a b c) is (/ (/ a b) c).  The int prefix
+// of a mixed operand list is therefore divided in integer arithmetic before anything is
+// promoted.  The structural half: the integer division of the first operand is entered on
+// some path that does NOT assume the whole argument list to be ints — a whole-list
+// classification in front of it (the shape +, -, * rightly have) sends an int prefix above
+// 2^53, or a wrapping quotient, through float64 first.
+
+func init() {
+	register(&Rule{ID: "ARITH.div-folds-left", Floor: 1,
+		Doc: "in the implementation of `/`, some entry into integer division whose dividend is an operand of the call (x.Int / y.Int, directly or in a same-package helper handed the operand) stays reachable when every edge entailing numericListType(args) == LInt is removed: `/` folds left and stays exact on an int prefix, it does not classify the whole list first",
+		Run: func(c *Ctx) []Obligation {
+			const id = "ARITH.div-folds-left"
+			nlt := c.LookupPkgFunc("lisp.numericListType")
+			lint := c.LookupConst("lisp.LInt")
+			intFld := c.LookupField("lisp.LVal.Int")
+			cellsFld := c.LookupField("lisp.LVal.Cells")
+			ent := c.RegistryByName("lisp", "/")
+			if nlt == nil || lint == nil || intFld == nil || cellsFld == nil || ent == nil {
+				return []Obligation{anchorMissing(id, "lisp.numericListType / LInt / LVal.Int / LVal.Cells / operator /")}
+			}
+			_, u0, _, ok := c.BodyOf(*ent)
+			if !ok || u0.Decl == nil {
+				return []Obligation{anchorMissing(id, "body of /")}
+			}
+			// does fn (same package, depth-bounded) divide two .Int reads in integer arithmetic?
+			var intDivides func(fn *types.Func, depth int) bool
+			hasIntQuo := func(u FuncUnit) bool {
+				info := u.Pkg.TypesInfo
+				hit := false
+				ast.Inspect(u.Decl.Body, func(n ast.Node) bool {
+					be, ok := n.(*ast.BinaryExpr)
+					if !ok || be.Op != token.QUO {
+						return true
+					}
+					reads := func(e ast.Expr) bool {
+						r := false
+						ast.Inspect(e, func(m ast.Node) bool {
+							if se, ok := m.(*ast.SelectorExpr); ok && FieldOfSelector(info, se) == intFld {
+								r = true
+							}
+							return !r
+						})
+						return r
+					}
+					if tv, ok := info.Types[be]; ok && reads(be.X) && reads(be.Y) {
+						if bt, ok := tv.Type.Underlying().(*types.Basic); ok && bt.Info()&types.IsInteger != 0 {
+							hit = true
+						}
+					}
+					return !hit
+				})
+				return hit
+			}
+			seen := map[*types.Func]bool{}
+			intDivides = func(fn *types.Func, depth int) bool {
+				fn = originOf(fn)
+				if fn == nil || fn.Pkg() != u0.Obj.Pkg() || seen[fn] {
+					return false
+				}
+				fd := c.declOf[fn]
+				if fd == nil || fd.Body == nil {
+					return false
+				}
+				u := FuncUnit{fn, fd, c.pkgOf[fd]}
+				if hasIntQuo(u) {
+					return true
+				}
+				if depth == 0 {
+					return false
+				}
+				seen[fn] = true
+				defer delete(seen, fn)
+				info := u.Pkg.TypesInfo
+				hit := false
+				ast.Inspect(fd.Body, func(n ast.Node) bool {
+					if ce, ok := n.(*ast.CallExpr); ok && !hit {
+						if g := Callee(info, ce); g != nil && intDivides(g, depth-1) {
+							hit = true
+						}
+					}
+					return !hit
+				})
+				return hit
+			}
+			info := u0.Pkg.TypesInfo
+			fc := c.cfgOf(u0, nil)
+			cls := func(e ast.Expr) (string, bool) {
+				be, ok := ast.Unparen(e).(*ast.BinaryExpr)
+				if !ok || (be.Op != token.EQL && be.Op != token.NEQ) {
+					return "", false
+				}
+				isLInt := func(x ast.Expr) bool { return identObjOrSel(info, x) == lint }
+				isWhole := func(x ast.Expr) bool {
+					if ce, ok := ast.Unparen(x).(*ast.CallExpr); ok && originOf(Callee(info, ce)) == nlt {
+						return true
+					}
+					if o := identObj(info, x); o != nil {
+						if dc, _, _ := definingCall(info, u0.Decl.Body, o); dc != nil && originOf(Callee(info, dc)) == nlt {
+							return true
+						}
+					}
+					return false
+				}
+				if (isWhole(be.X) && isLInt(be.Y)) || (isWhole(be.Y) && isLInt(be.X)) {
+					return "allInt", be.Op == token.NEQ
+				}
+				return "", false
+			}
+			cut := fc.edgesEntailing(cls, func(v map[string]bool) bool { return v["$has:allInt"] && v["allInt"] })
+			// an operand of the call: an expression that reads the Cells of a parameter
+			params := map[types.Object]bool{}
+			for _, p := range paramObjs(u0) {
+				params[p] = true
+			}
+			fromArgs := func(e ast.Expr) bool {
+				hit := false
+				ast.Inspect(e, func(n ast.Node) bool {
+					if se, ok := n.(*ast.SelectorExpr); ok && FieldOfSelector(info, se) == cellsFld {
+						if o := identObj(info, se.X); o != nil && params[o] {
+							hit = true
+						}
+					}
+					return !hit
+				})
+				if !hit {
+					if o := identObj(info, e); o != nil && !params[o] {
+						if d := soleDef(info, u0.Decl.Body, e); d != nil && d != e {
+							ast.Inspect(d, func(n ast.Node) bool {
+								if se, ok := n.(*ast.SelectorExpr); ok && FieldOfSelector(info, se) == cellsFld {
+									if o := identObj(info, se.X); o != nil && params[o] {
+										hit = true
+									}
+								}
+								return !hit
+							})
+						}
+					}
+				}
+				return hit
+			}
+			type entry struct {
+				n ast.Node
+				b *cfg.Block
+			}
+			var entries []entry
+			for _, b := range fc.G.Blocks {
+				if !fc.Live(b) {
+					continue
+				}
+				for _, n := range b.Nodes {
+					ast.Inspect(n, func(m ast.Node) bool {
+						switch x := m.(type) {
+						case *ast.CallExpr:
+							if g := Callee(info, x); g != nil && intDivides(g, 2) && len(x.Args) > 0 && fromArgs(x.Args[0]) {
+								entries = append(entries, entry{x, b})
+							}
+						case *ast.BinaryExpr:
+							if x.Op == token.QUO && fromArgs(x.X) {
+								if tv, ok := info.Types[x]; ok {
+									if bt, ok := tv.Type.Underlying().(*types.Basic); ok && bt.Info()&types.IsInteger != 0 {
+										entries = append(entries, entry{x, b})
+									}
+								}
+							}
+						}
+						return true
+					})
+				}
+			}
+			if len(entries) == 0 {
+				return []Obligation{mkOb(c, id, u0, "integer division of the first operand", u0.Decl, Undecided, "no integer division whose dividend is an operand of the call was found in the implementation of /", true)}
+			}
+			for _, e := range entries {
+				if len(cut) == 0 || fc.reachableAvoiding(e.b, cut) {
+					return []Obligation{mkOb(c, id, u0, "integer division of the first operand", e.n, Proved, "entered without assuming the whole operand list to be ints: an int prefix is divided exactly before any promotion", true)}
+				}
+			}
+			return []Obligation{mkOb(c, id, u0, "integer division of the first operand", entries[0].n, Violated, "every integer division of the first operand is reached only after numericListType(args) == LInt: a mixed list such as (/ 9007199254740993 3 1.0) is divided in float64 from the start, so (/ a b c) no longer equals (/ (/ a b) c)", true)}
+		}})
 }
